@@ -10,3 +10,6 @@ Struct/RangeSpec.vos Struct/RangeSpec.vok Struct/RangeSpec.required_vos: Struct/
 Struct/PageOps.vo Struct/PageOps.glob Struct/PageOps.v.beautified Struct/PageOps.required_vo: Struct/PageOps.v Base/Bytes.vo
 Struct/PageOps.vio: Struct/PageOps.v Base/Bytes.vio
 Struct/PageOps.vos Struct/PageOps.vok Struct/PageOps.required_vos: Struct/PageOps.v Base/Bytes.vos
+Struct/C12Proofs.vo Struct/C12Proofs.glob Struct/C12Proofs.v.beautified Struct/C12Proofs.required_vo: Struct/C12Proofs.v Base/Bytes.vo Struct/NumRange.vo Struct/RangeSpec.vo Struct/PageOps.vo
+Struct/C12Proofs.vio: Struct/C12Proofs.v Base/Bytes.vio Struct/NumRange.vio Struct/RangeSpec.vio Struct/PageOps.vio
+Struct/C12Proofs.vos Struct/C12Proofs.vok Struct/C12Proofs.required_vos: Struct/C12Proofs.v Base/Bytes.vos Struct/NumRange.vos Struct/RangeSpec.vos Struct/PageOps.vos
